@@ -95,6 +95,10 @@ class Builder(object):
     def build(self, d, copy=1):
         cls = d['cls']
         sub = d['sub']
+        if copy == 3:
+            alt = self.build_alt(d)
+            if alt is not None:
+                return alt
         if cls in PLAIN:
             return PLAIN[cls]()
         if cls == 'Strings':
@@ -131,6 +135,102 @@ class Builder(object):
         if cls == 'PSpace':
             return self.pspace(d, copy)
         raise ValueError(cls)
+
+    # ---- copy 3: other spellings and constructor routes for the same defining data
+    def build_alt(self, d):
+        cls, sub = d['cls'], d['sub']
+        if cls in ('SetUnion', 'SetIntersection'):
+            parts = [self.build(s, 3) for s in sub]
+            ctor = SetUnion if cls == 'SetUnion' else SetIntersection
+            return ctor(*(parts[::-1] + [self.build(sub[0], 3)]))         # other order, a duplicate
+        if cls == 'FiniteSet':
+            el = [int(q(v)) for v in d['q'][0]]
+            return FiniteSet(*(el[::-1] + el[:1]))
+        if cls == 'IntervalProd':
+            conv = lambda v: int(v[0]) if v[1] == 1 else qf(v)           # ints where possible
+            return odl.IntervalProd(tuple(conv(v) for v in d['q'][0]), np.array([qf(v) for v in d['q'][1]]))
+        if cls == 'RectGrid' and d['s'] != 'negzero':
+            vecs = [[q(t) for t in v] for v in d['q']]
+            uniform = all(len(v) > 1 and len({v[k + 1] - v[k] for k in range(len(v) - 1)}) == 1 for v in vecs)
+            if uniform:
+                return odl.uniform_grid([float(v[0]) for v in vecs], [float(v[-1]) for v in vecs],
+                                        tuple(len(v) for v in vecs))
+            return odl.RectGrid(*[tuple(float(t) for t in v) for v in vecs])
+        if cls == 'RectPartition':
+            iv, gr = sub
+            grid = self.build(gr, 3)
+            mn, mx = [qf(v) for v in iv['q'][0]], [qf(v) for v in iv['q'][1]]
+            if grid.is_uniform and gr['s'] != 'negzero':
+                return odl.uniform_partition_fromgrid(grid, min_pt=mn, max_pt=mx)
+            return odl.nonuniform_partition(*grid.coord_vectors, min_pt=mn, max_pt=mx)
+        if cls in ('TWConst', 'PWConst'):
+            ex, c = q(d['q'][0][0]) if d['q'][0][0][1] else None, q(d['q'][1][0])
+            exv = float('inf') if ex is None else (int(ex) if ex.denominator == 1 else float(ex))
+            return WCLS[cls](int(c) if c.denominator == 1 else float(c), exponent=exv)
+        if cls == 'TWArray':
+            arr = self.array(d)
+            if arr.ndim == 1 and arr.dtype == np.float64:
+                return WCLS[cls](odl.rn(arr.size).element(arr), exponent=qf(d['q'][0][0]))   # wraps the same ndarray
+            return None
+        if cls == 'Tensor':
+            return self.tensor_alt(d)
+        if cls == 'Discr':
+            part_d, tn_d = sub
+            w = tn_d['sub'][0]
+            part = self.build(part_d, 3)
+            if part.is_uniform and w['cls'] in ('TWConst', 'TWArray'):
+                shape = tuple(int(q(v)) for v in tn_d['q'][0])
+                ex = qf(w['q'][0][0])
+                wt = qf(w['q'][1][0]) if w['cls'] == 'TWConst' else self.array(w, shape, 'float64')
+                return odl.uniform_discr_frompartition(part, dtype=np.dtype(DT[tn_d['s']]), exponent=ex, weighting=wt)
+            return odl.DiscretizedSpace(part, self.tensor_alt(tn_d))
+        if cls == 'PSpace':
+            w, comps = sub[0], sub[1:]
+            spaces = [self.build(c, 3) for c in comps]
+            ex = qf(w['q'][0][0])
+            if w['cls'] == 'PWConst' and q(w['q'][1][0]) == 1 and ex == 2.0 and all(c == comps[0] for c in comps):
+                return spaces[0] ** len(spaces)                                            # power operator
+            if w['cls'] == 'PWConst':
+                return odl.ProductSpace(*spaces, weighting=int(qf(w['q'][1][0])) if qf(w['q'][1][0]).is_integer()
+                                        else qf(w['q'][1][0]), exponent=ex)
+            if w['cls'] == 'PWArray' and w['id'] % 10 != 0:                                 # an un-shared array: a list will do
+                if w['id'] in self.pool:
+                    return None
+                sp = odl.ProductSpace(*spaces, weighting=[qf(v) for v in w['q'][1]], exponent=ex)
+                self.pool[w['id']] = sp.weighting.array           # the array object ODL made from the list
+                return sp
+            return None
+        return None
+
+    def tensor_alt(self, d):
+        """rn / cn spellings, dtype and shape spelled differently."""
+        shape = [int(q(v)) for v in d['q'][0]]
+        w = d['sub'][0]
+        dtn = DT[d['s']]
+        spell = {'float64': float, 'complex128': complex, 'int64': int, 'float32': np.float32,
+                 'complex64': np.dtype('complex64'), 'int32': 'i4'}[dtn]
+        if not w['cls'].startswith('TW'):
+            return odl.tensor_space(shape, dtype=spell, weighting=self.weighting(w, tuple(shape), 'float64'))
+        ex = qf(w['q'][0][0])
+        kw = {}
+        if w['cls'] == 'TWConst':
+            c = qf(w['q'][1][0])
+            if c != 1.0:
+                kw['weighting'] = int(c) if c.is_integer() else c
+            kw['exponent'] = int(ex) if ex in (1.0, 2.0, 3.0) else ex
+        elif w['cls'] == 'TWArray':
+            rdt = {'complex64': 'float32', 'complex128': 'float64'}.get(dtn, dtn)
+            kw['weighting'] = self.array(w, tuple(shape), rdt if np.dtype(rdt).kind == 'f' else 'float64')
+            kw['exponent'] = ex
+        else:
+            kw[{'TWCustomInner': 'inner', 'TWCustomNorm': 'norm', 'TWCustomDist': 'dist'}[w['cls']]] = CALL[w['s']]
+        shp = shape[0] if len(shape) == 1 else tuple(shape)
+        kind = np.dtype(dtn).kind
+        if kind == 'f':
+            return odl.rn(shp, dtype=spell, **kw)
+        if kind == 'c':
+            return odl.cn(shp, dtype=spell, **kw)
+        return odl.tensor_space(shp, dtype=spell, **kw)
 
     def tensor(self, d, copy):
         shape = tuple(int(q(v)) for v in d['q'][0])
